@@ -1,5 +1,7 @@
 import QuickAdd.Lemmas.SearchMap
 import QuickAdd.Props.C06
+import QuickAdd.Props.C15
+import QuickAdd.Lemmas.SpanReach
 /-!
 # C09 — words around a time expression neither change its meaning nor blur its span
 
@@ -10,6 +12,9 @@ amount `log(len e / len T)`.  The worklist loop is **equivariant** under any ord
 candidates, their traces, their order and the winner are the same — only the reported numbers move.
 Span half: anchoring keeps the span (`C06.latent_span`), the rule wrapper spans first-to-last argument
 (`wrapper_span`), and token spans exclude trailing blanks (`token_span_trimmed`).
+`span_within_tokens`: if no pattern match of the text starts before offset `lo` or ends after `hi` (the surrounding
+words are inert in the property's sense), then **no candidate's span does** — for every scorer, depth limit, deadline; with
+`C02.candidate_span` (start < end): the reported span lies inside the expression, never on the neighbouring words.
 The two lexical hypotheses — no token touches the surrounding words, the tokens inside are the shifted tokens of the
 expression alone — are decided per input by running the library's own patterns (sweep), as the property prescribes.
 -/
@@ -64,5 +69,29 @@ theorem rstripLen_le (s : List Nat) : rstripLen s ≤ s.length := by
   unfold rstripLen
   have := length_dropWhile_le_aux isPySpace s.reverse
   simpa using this
+
+/-- spans never leave the region the pattern matches occupy: if every match of the text lies in `[lo, hi]`, so does the span
+    of every streamed candidate (every scorer, depth limit, `relative_match_len`, deadline) -/
+theorem span_within_tokens {S : Type} (sc : Scorer S) (ts : Ts) (o : Opts) (txt : List Nat) (fuel : Nat) (lo hi : Nat)
+    (hin : ∀ a ∈ matchRegex txt, lo ≤ a.ms ∧ a.me ≤ hi) :
+    ∀ c ∈ (searchCore sc ts o txt fuel).1.1, lo ≤ c.res.ms ∧ c.res.ms < c.res.me ∧ c.res.me ≤ hi := by
+  intro c hc
+  obtain ⟨p, rules, hr, hm, _⟩ := C15.search_sound sc ts o txt fuel c hc
+  have hinit : ∀ e ∈ (initialStack sc o.depth o.relMatchLenNum o.relMatchLenDen txt fuel).1, SpanIn lo hi e.prod := by
+    intro e he
+    have h0 := initialStack_span sc _ _ _ txt fuel e he
+    have he' := he
+    unfold initialStack at he'
+    simp only at he'
+    have h3 := mem_sortE _ _ _ (List.mem_filter.mp (mem_trunc _ _ _ he')).1
+    simp only [List.mem_map] at h3
+    obtain ⟨s, hs, rfl⟩ := h3
+    refine ⟨⟨h0.1, ?_⟩, ?_⟩
+    · intro a ha
+      exact ⟨(h0.2 a ha).1, (hin a (regexStack_mem txt _ fuel s hs a ha)).2⟩
+    · intro a ha
+      exact (hin a (regexStack_mem txt _ fuel s hs a ha)).1
+  have := reach_span_in sc ts o.depth txt lo hi _ hinit p _ rules hr
+  exact ⟨this.2 c.res hm, (this.1.2 c.res hm).1, (this.1.2 c.res hm).2⟩
 
 end QuickAdd.C09
